@@ -32,6 +32,10 @@ type StepResult struct {
 	Changed   bool   // the reference state changed
 	Loc       string
 	Sys       *System
+	// SearchOnly: every symptom is a wrong FindFeatures ID sequence (lookups,
+	// Get, enumeration and the tags of returned features all agree with the
+	// reference), so the reference tag map is still what the world shows.
+	SearchOnly bool
 }
 
 // Replay builds a fresh system and applies the history to the real world and
@@ -88,6 +92,12 @@ func Step(l *Layer, hist []int16, j int, keepText bool) *StepResult {
 	r.Symptoms = Compare(obs, s.Ref, allSeen)
 	if len(r.Symptoms) > 0 {
 		r.Class = opClass + "@" + r.Loc + ":" + r.Symptoms[0].Class
+		r.SearchOnly = true
+		for _, sy := range r.Symptoms {
+			if !strings.HasPrefix(sy.Class, "find[") {
+				r.SearchOnly = false
+			}
+		}
 	}
 	ref := s.Ref.String()
 	key := PrivateKey(s.W)
@@ -119,9 +129,17 @@ type LayerPlan struct {
 	HiddenSample []string
 	HarnessErrs  []string // same private key, different observable dump
 	Pruned       int      // transitions that violate the oracle (successor not expanded)
-	Panics       int
-	Capped       bool
-	Secs         float64
+	// SearchBad: pruned transitions whose only symptoms are wrong search
+	// results; C03 evaluates its menus on their successors too.
+	SearchBad []Transition
+	Panics    int
+	Capped    bool
+	Secs      float64
+}
+
+type Transition struct {
+	State int32
+	Op    int16
 }
 
 type Plan struct {
@@ -160,6 +178,7 @@ type succ struct {
 	key, obs, skey Hash
 	bad            bool
 	panicked       bool
+	searchOnly     bool
 }
 
 // discover is a breadth-first search; a level is expanded in parallel and
@@ -199,7 +218,7 @@ func discover(l *Layer) LayerPlan {
 					ss := make([]succ, nops)
 					for j := 0; j < nops; j++ {
 						r := Step(l, h, j, false)
-						ss[j] = succ{key: r.Key, obs: r.Obs, skey: r.SearchKey, bad: r.Class != "", panicked: strings.Contains(r.Class, "panic")}
+						ss[j] = succ{key: r.Key, obs: r.Obs, skey: r.SearchKey, bad: r.Class != "", panicked: strings.Contains(r.Class, "panic"), searchOnly: r.SearchOnly}
 					}
 					out[i-lo] = ss
 				}
@@ -212,6 +231,10 @@ func discover(l *Layer) LayerPlan {
 					lp.Pruned++
 					if sc.panicked {
 						lp.Panics++
+					}
+					if sc.searchOnly && !seenSearch[sc.skey] {
+						seenSearch[sc.skey] = true
+						lp.SearchBad = append(lp.SearchBad, Transition{int32(i), int16(j)})
 					}
 					continue
 				}
